@@ -30,7 +30,7 @@ pub struct RuleDefSrc {
 pub struct BankSrc {
     pub name: String,
     pub bits: Option<usize>,
-    pub addr: Option<i64>,
+    pub addr: Option<i128>,
     pub size: Option<usize>,
     pub outp: Option<usize>,
     pub fill: bool,
